@@ -41,6 +41,8 @@ def parse_cases():
           'not(x)', 'AND[true]', 'OR [false]', 'AND [true, false] && true', 'a beginWith b endWith c', "a beginWith 'x' == true",
           '1 << 2 >> 3', '1 <<= 2', 'a <<= b >>= c', 'a |= b', 'a || b | c', 'a&&b&c', 'a<b<=c', 'a=b==c', 'a!=b=c', '!a != !b', 'a = !b', '1-1', '1 - -1', '1--1', '1 -- 1', '1++1', '1 ++ 1', '- - 1', '-+-1', '1 +-+ 2',
           'a?b:c', 'a ?b :c', 'a ? b : c : d', 'a ? : c', '{a:b}?c:d']
+    # no escape processing in strings (C10, C12): a backslash is an ordinary character and the first matching quote closes the string
+    c += ['"it\'s \\"ok\\""', "'a\\'b'", '"a\\"', "'\\'", '"a\\" + "b"', "'\\' == '\\'", "\"a' + 'b\\\"\"", "'\\n'", '"\\\\"']
     # multi-byte neighbours (C01 / C10)
     for u in ['é', 'ü', '日本', '🙂', 'ключ']:
         c += ['+%s' % u, '1+%s' % u, 'a>=%s' % u, '!%s' % u, 'x &&%s' % u, "'%s'" % u, "'%s'=='%s'" % (u, u), "['%s',1,2]" % u, "{'%s':1}" % u, "f('%s')" % u, "'%s')" % u, "['%s',,1]" % u,
